@@ -119,6 +119,48 @@ func init() {
 				core.CallArgs{Fn: fn, Callee: []string{dbp + "isdeleted"}, What: "tests the value the iterator stands on",
 					Args: map[int]core.ExprPred{0: core.CallsAny(dbp + "Iterator.Value")}, Min: 1}.Check(r)
 			}),
+			iterBufferRule("R07f", 5, "common/db"),
+			rule("R07e", "the page-full test is only evaluated for a step that collected an entry", 3, func(r *Run) {
+				// `collected == count` evaluated after a skipped tombstone ends a page early (count 0 = unlimited
+				// relies on the counter never being compared while it is still 0).
+				isCounter := func(c *core.Ctx, e ast.Expr) bool {
+					id, ok := ast.Unparen(e).(*ast.Ident)
+					return ok && !core.Mentions("param:1", "param:2", "param:3")(c, id) && c.Info.TypeOf(e) != nil && c.Info.TypeOf(e).String() == "int32"
+				}
+				moves := core.Names(dbp+"IteratorSeeker.Next", dbp+"IteratorSeeker.Seek", dbp+"IteratorSeeker.Rewind")
+				for _, fn := range []string{lh + "IteratorScan", lh + "iteratorScan", lh + "IteratorCallback"} {
+					f := r.Fn(fn)
+					if f == nil {
+						continue
+					}
+					cnt := f.Sig().Params().At(indexOfCountParam(f))
+					isCount := func(c *core.Ctx, e ast.Expr) bool {
+						id, ok := ast.Unparen(e).(*ast.Ident)
+						return ok && c.Info.ObjectOf(id) == types.Object(cnt)
+					}
+					sp := &core.FlowSpec{Nodes: []core.NodeGen{{Fact: "counted-this-step",
+						Gen: func(c *core.Ctx, n *core.GNode) bool {
+							inc, ok := n.Ast.(*ast.IncDecStmt)
+							return ok && inc.Tok == token.INC && isCounter(c, inc.X)
+						},
+						Kill: func(c *core.Ctx, n *core.GNode) bool {
+							for _, call := range core.CallsIn(n.Ast) {
+								if moves.Has(core.Callee(c.Info, call)) {
+									return true
+								}
+							}
+							return false
+						}}}}
+					core.Dominated{Fn: fn, Spec: sp, Sink: core.SinkPred{Label: "page-full test", Match: func(fl *core.Flow, n *core.GNode) bool {
+						e, ok := n.Ast.(ast.Expr)
+						if !ok {
+							return false
+						}
+						_, isCmp := core.CmpAtom(fl.C, e, isCounter, isCount)
+						return isCmp
+					}}, Need: []Fact{"counted-this-step"}, Min: 1}.Check(r)
+				}
+			}),
 			rule("R07b", "continue after the last returned key", 3, func(r *Run) {
 				fn := lh + "IteratorScan"
 				core.Dominated{Fn: fn, Spec: &core.FlowSpec{Conds: []core.CondGuard{core.BoolGuard("on-start-key", core.CallAtomSym("bytes.Equal", core.CallsAny(dbp+"Iterator.Key"), core.IsObj("param:1")), true)}},
@@ -312,6 +354,7 @@ func init() {
 					Sink: core.SuccessReturn(-1), Need: []Fact{"all-deleted"}, Min: 1}.Check(r)
 				core.CallArgs{Fn: smv + "delMVCC", Callee: []string{smv + "GetDelKV"}, What: "listed key at the removed version", Args: map[int]core.ExprPred{0: core.Mentions("types.KeyValue.Key"), 1: core.IsObj("param:2")}, Min: 1}.Check(r)
 			}),
+			iterBufferRule("R09d", 5, "common/db"),
 			rule("R09c", "garbage collection keeps the newest entry of every key and everything above the requested version", 3, func(r *Run) {
 				fn := "common/db.(*MVCCHelper).Trash"
 				core.Dominated{Fn: fn, Spec: &core.FlowSpec{Conds: []core.CondGuard{
